@@ -16,7 +16,7 @@
 From Coq Require Import NArith List Bool Arith Lia.
 From CL Require Import Base.Sx Base.Res Base.Str Regex.Rx Model.Entry Model.Parse
   Model.ParseFormats Generated.RxParser Generated.RxC02 Generated.C02Facts Model.Unescape
-  Proofs.C02License Proofs.UnescapeProofs Proofs.C02Po.
+  Proofs.C02License Proofs.UnescapeProofs Proofs.C02Po Proofs.C02Props.
 Import ListNotations.
 
 (* ---- (a) the License rule -------------------------------------------------------------
@@ -114,4 +114,25 @@ Example C02_unescape_po_example :
   forallb (forallb po_tok_legal) items = true /\
   map render_item items = [[97; 92; 92; 110; 98]; [92; 34; 92; 116]]%N /\
   eval_stringlist (map render_item items) = Ok [97; 92; 110; 98; 34; 9]%N.
+Proof. vm_compute. repeat split. Qed.
+
+(* ---- (c) properties values ----------------------------------------------------------------
+   A raw value is a sequence of tokens: a plain character (not a backslash), backslash-u
+   with 1 to 4 hexadecimal digits, a line continuation (backslash, newline, indentation),
+   or a backslash and one more character (n r t stand for newline, carriage return, tab,
+   every other character for itself).  [toks_ok]: each token is well formed, a short
+   backslash-u escape and a bare backslash-u are not followed by a hexadecimal digit, a
+   continuation's indentation is maximal.  Then val (escape.sub(unescape, raw_val) on the
+   generated expression and known_escapes) is the concatenation of the token meanings. *)
+Theorem C02_unescape_properties : forall ts : list ptok,
+  toks_ok ts = true -> props_val (render_toks ts) = Ok (meaning_toks ts).
+Proof. exact unescape_properties. Qed.
+
+(*  a \u41 x \n (continuation, two blanks) b \q \\  *)
+Example C02_unescape_properties_example :
+  let ts := [TPlain 97; TUni [52; 49]; TPlain 120; TSingle 110; TCont [32; 32]; TPlain 98;
+             TSingle 113; TSingle 92]%N in
+  toks_ok ts = true /\
+  render_toks ts = [97; 92; 117; 52; 49; 120; 92; 110; 92; 10; 32; 32; 98; 92; 113; 92; 92]%N /\
+  props_val (render_toks ts) = Ok [97; 65; 120; 10; 98; 113; 92]%N.
 Proof. vm_compute. repeat split. Qed.
